@@ -171,7 +171,36 @@ def apply(trie, model, op, ctx=None):
     return tag
 
 
-def new_trie(ctx=None):
+class MinimalDB:
+    """A database that offers only what a mapping must: [] read / write / delete and `in`.
+    No get(), setdefault(), pop(), keys(), items(), update(): the repository uses none of them on
+    the database of a BinaryTrie (or of the branch helpers)."""
+
+    def __init__(self):
+        self._d = {}
+
+    def __getitem__(self, key):
+        return self._d[key]
+
+    def __setitem__(self, key, value):
+        self._d[key] = value
+
+    def __delitem__(self, key):
+        del self._d[key]
+
+    def __contains__(self, key):
+        return key in self._d
+
+    def raw(self):          # harness side only
+        return self._d
+
+
+def new_trie(ctx=None, minimal=False):
+    if minimal:
+        db = MinimalDB()
+        if ctx is not None:
+            ctx.count("tries_over_a_minimal_mapping")
+        return BinaryTrie(db), db
     db = RecordingDB()
     db.record = False
     db.checkers.append(append_only_spec(ctx))
